@@ -214,6 +214,26 @@ Theorem C10_remote_release_partial : forall ops s outs a,
 Proof. exact remote_release. Qed.
 Print Assumptions C10_remote_release_partial.
 
+(* a publication that is not a network message (the codec of the sharing layer cannot encode it) on a node that is linked
+   to another one: it cannot travel, but it still reaches every subscription of the topic on the PUBLISHER's node exactly
+   once, with the publisher as sender — and nobody on the other node; the tables are untouched *)
+Theorem C10_remote_local_only_publication_partial : forall ops s outs p t v,
+  q_run qinit ops = (s, outs) -> q_can_send s p = true ->
+  q_step s (QPubL p t v) =
+    (s, QOut [] (q_group (map (fun x => (q_who x, t, v, qref_of p))
+                              (filter (fun x => (q_topic x =? t) && (q_node x =? qpub_node p)) (qtab s))))) /\
+  (forall d, In d (q_deliver_local s p t v) -> let '(to, _, _, _) := d in node_of to = qpub_node p).
+Proof. exact remote_local_only. Qed.
+Print Assumptions C10_remote_local_only_publication_partial.
+
+Example C10_example_remote_local_only :
+  snd (q_run qinit [QSpawn 0 [0]; QSpawn 1 [0]; QSpawn 2 [0]; QPubL (QAct 0) 0 1%Z; QPubN (QAct 0) 0 2%Z 1; QPubL (QSys 1) 0 3%Z])
+  = [QOut [1] []; QOut [2] []; QOut [1] [];
+     QOut [] [(0, 0, 1%Z, QRef 0); (1, 0, 1%Z, QRef 0)];
+     QOut [] [(0, 0, 2%Z, QRef 0); (1, 0, 2%Z, QRef 0); (2, 0, 2%Z, QRef 0)];
+     QOut [] [(2, 0, 3%Z, QGuard 1)]].
+Proof. vm_compute. reflexivity. Qed.
+
 (* non-vacuity: subscriptions on both nodes with the SAME id 1, a burst from node 0, an UnSubscribe on node 1 with
    node 0's subscription (cancels nothing), restart on node 1, publication by the system of node 1 *)
 Example C10_example_remote :
